@@ -677,11 +677,31 @@ func c14GenC(r *core.Rng, idx int) c14Case {
 	} else {
 		c.expect = "reject"
 	}
-	// the deviation lives in the same module or in a module of its own
-	if r.Bool() {
+	// the deviation lives in the same module, in a submodule of it, or in a module of its own
+	switch where := r.Intn(3); {
+	case where == 0:
 		m.Add(deviation)
 		yang.SortSections(m)
-	} else {
+	case where == 1:
+		mkSub := func(withDev bool) *yang.Stmt {
+			sub := yang.S("submodule", "dev-sub", yang.S("belongs-to", m.Arg, yang.S("prefix", pf)))
+			if withDev {
+				sub.Add(deviation)
+			} else {
+				sub.Add(yang.S("description", "nothing here"))
+			}
+			return sub
+		}
+		m.Add(yang.S("include", "dev-sub"))
+		yang.SortSections(m)
+		ms.Mods = append(ms.Mods, mkSub(true))
+		if c.edited != nil {
+			em := c.edited.Mods[0]
+			em.Add(yang.S("include", "dev-sub"))
+			yang.SortSections(em)
+			c.edited.Mods = append(c.edited.Mods, mkSub(false))
+		}
+	default:
 		dm := yang.S("module", "dev-mod", yang.S("namespace", "urn:verif:dev-mod"), yang.S("prefix", "dvm"), yang.S("import", m.Arg, yang.S("prefix", pf)), deviation)
 		ms.Mods = append(ms.Mods, dm)
 		if c.edited != nil {
